@@ -45,6 +45,8 @@ Definition reviewed_sites : list (string * string * string * string) :=
     ("transform.py", "_interp_1d_conservative", "min", "min(theta_max, theta_hat_2[j])");
     (* the one-letter kind of a NumPy dtype (integer / unsigned / boolean), not a user name *)
     ("padding.py", "_pad_basic", "substring-test", "da_padded.dtype.kind in 'iub'");
+    (* position of a face label (an integer) in the LIST of face labels: list.index, compares whole items *)
+    ("padding.py", "_pad_face_connections", "str.index", "face_labels.index(source_face)");
     (* temporary dimension names, made different from every dimension present *)
     ("padding.py", "_maybe_swap_dimension_names", "concat", "'_' + temp_name");
     ("padding.py", "_maybe_swap_dimension_names", "concat", "to_name + 'dummy'");
